@@ -579,6 +579,10 @@ class IntegerFieldFormat(AbstractFieldFormat):
             lower_limit = self.valid_range.lower_limit
             upper_limit = self.valid_range.upper_limit
             limit = max(sign_adjusted_limit(lower_limit), sign_adjusted_limit(upper_limit))
+            if lower_limit < 0:
+                # The only integer type with 8 bits, tinyint of Transact-SQL, cannot store negative numbers,
+                # so ask for a type with more than 8 bits.
+                limit = max(limit, 256)
         return "int", limit
 
     def validated_value(self, value):
